@@ -1,7 +1,6 @@
 SPECIFICATION Spec
 CONSTANTS
   F = 3
-  NVals = 1
   BUGGY_F2 = FALSE
   BUGGY_F3 = FALSE
   BUGGY_F15 = FALSE
@@ -10,8 +9,11 @@ CONSTANTS
   BUGGY_F20 = FALSE
   BUGGY_F21 = FALSE
   BUGGY_F19 = FALSE
-  KeySet <- Keys5
-  ArgKeys <- Args5
-INVARIANTS IscanREq
+  KeySet <- K6y
+  BuildKeys <- B6y
+  MaxW = 3
+  CurArgs <- Args6y
+INVARIANTS CursorOK
+PROPERTY EaAct
 VIEW View
 CHECK_DEADLOCK FALSE
